@@ -54,6 +54,9 @@ SITES = [
     _s("probeShift", _R + "_overlap_projection", ("callarg", "fft_shift", 1, 0),
        {"position": "p", "old_position": "o", "xp.round(position)": "rp", "xp.round(old_position)": "ro"}, ["p", "o", "rp", "ro"], ["rat"],
        inline={"fractional_position": ("assign", "fractional_position", 0), "old_fractional_position": ("assign", "old_fractional_position", 0)}),
+    # bookkeeping of one sweep of `reconstruct`: where the stored probe is assumed to sit at the start, and the final shift back
+    _s("sweepStart", _R + "reconstruct", ("assign", "old_position", 0), {"xp.round(position_px_padding)": "rpad"}, ["rpad"], ["rat"]),
+    _s("shiftBack", _R + "reconstruct", ("callarg", "fft_shift", 1, 0), {"xp.round(old_position)": "ro", "old_position": "o"}, ["o", "ro"], ["rat"]),
     _s("exitWave", _R + "_overlap_projection", ("assign", "exit_wave", 0), {"object_roi": "o", "probes": "p"}, ["o", "p"], ["cplx"]),
     _s("projectionSymbol", _R + "_fourier_projection", ("callarg", "ifft2", 0, 0),
        {"diffraction_patterns": "(d : ℂ)", "exit_wave_fft": "z"}, ["d", "z"], ["cplx"], param_types={"d": "ℝ"}),
@@ -89,4 +92,5 @@ FINGERPRINTS = {
     "reconstruct.Regularized._overlap_projection": (_F, _R + "_overlap_projection"),
     "reconstruct.Regularized._fourier_projection": (_F, _R + "_fourier_projection"),
     "reconstruct.Regularized._update_function": (_F, _R + "_update_function"),
+    "reconstruct.Regularized.reconstruct": (_F, _R + "reconstruct"),
 }
